@@ -4,12 +4,18 @@
   Proved here (shell model, every handler instance): which states admit which exchange (regenerated from the
   source), that triggers arriving while a request is outstanding are queued in order and lose nothing, that the
   request generators are invoked only in the states they assert, and that no entry point lets an exception out
-  unless a generator itself raises.  Agreement of the two peers after overlapping exchanges is NOT proved: it is
-  explored exhaustively to a bounded depth and by random walks on the real code (harness/c09.py).
+  unless a generator itself raises.  Agreement of the two peers is proved for CHILD_SA exchanges that do not overlap (two ends of
+  the handler model exchanging the model's messages): any sequence of creations, rekeys and deletions started by either end —
+  with every refusal, every INVALID_KE_PAYLOAD round, the delete that follows a rekey and the delete of a CHILD_SA the initiator
+  cannot accept — and of deletions started by both ends at once leaves the ends mirror images of each other, whatever SPI values
+  coincide across the ends.  For overlapping exchanges other than crossing deletes, and for IKE_SA rekeys, it is NOT proved: it
+  is explored exhaustively to a bounded depth and by random walks on the real code (harness/c09.py).
 -/
 import PyIkev2.Proofs.Machine
 import PyIkev2.Gen.Machine
 import PyIkev2.Proofs.HandlersCollide
+import PyIkev2.Proofs.TwoEnds
+import PyIkev2.Proofs.TwoEndsCreate
 
 namespace PyIkev2.Props.C09
 open PyIkev2 PyIkev2.Impl
@@ -174,5 +180,156 @@ example :
     let k1 : Child := ⟨[1, 2, 3, 4], [9, 9, 9, 9], p, p, [], [], 1, 0⟩
     let k2 : Child := ⟨[5, 6, 7, 8], [1, 2, 3, 4], p, p, [], [], 1, 0⟩
     getKidOut [k1, k2] [1, 2, 3, 4] = some k2 ∧ getKid [k1, k2] [1, 2, 3, 4] = some k1 := by decide
+
+/-! ### two ends: agreement through CHILD_SA delete exchanges
+
+Two states of the handler model stand for the two ends of one IKE_SA; a message one end's handler returns is the message the
+other end's handler is given (checked on the implementation for every protected request of every honest history: evidence
+`two_end_honest_requests_verbatim`).  `Agree a b`: both ESTABLISHED, the CHILD_SAs mirror images of each other as multisets of
+(inbound SPI, outbound SPI, protocol), each end's own inbound SPIs pairwise different (the kernel refuses a second SA with the
+same key), protocols AH or ESP.  Nothing is assumed about values coinciding *across* the ends. -/
+
+/-- one delete exchange (`a` asks — hard expiry — `b` answers, `a` processes the answer): no handler raises, each end removes
+    exactly the image of the other's CHILD_SA and asks its kernel to delete exactly that pair, `a` is ESTABLISHED again, `b` never
+    left its state -/
+theorem c09_concrete_delete_exchange (c : Child) (a b : HSt)
+    (hsa : a.me.core.st = stESTABLISHED) (hsb : liveStatesAndRekeyed.contains b.me.core.st = true)
+    (hm : Mirror a.me.ext.kids b.me.ext.kids) (hnd : (a.me.ext.kids.map Child.inSpi).Nodup) (hc : c ∈ a.me.ext.kids)
+    (hproto : c.proposal.proto = 2 ∨ c.proposal.proto = 3) :
+    ∃ a2 b1 cb, deleteExchange c a b = some (a2, b1) ∧ cb ∈ b.me.ext.kids ∧ c.view = cb.peerView ∧
+      a2.me.ext.kids = removeKid a.me.ext.kids c ∧ b1.me.ext.kids = removeKid b.me.ext.kids cb ∧
+      a2.me.core.st = stESTABLISHED ∧ b1.me.core.st = b.me.core.st ∧
+      a2.nl = a.nl ++ delPair a.me c ∧ b1.nl = b.nl ++ delPair b.me cb :=
+  deleteExchange_eq c a b hsa hsb hm hnd hc hproto
+
+/-- … and the ends agree afterwards as they did before -/
+theorem c09_concrete_delete_exchange_keeps_the_ends_agreed (a b : HSt) (h : Agree a b) (c : Child) (hc : c ∈ a.me.ext.kids) :
+    ∃ a2 b1, deleteExchange c a b = some (a2, b1) ∧ Agree a2 b1 := h.deleteExchange c hc
+
+/-- both ends delete the same CHILD_SA at the same time (RFC 7296 2.25.1 first case): each removes it, and its kernel SAs, exactly
+    once — when the other's request arrives; the replies find nothing left; both are ESTABLISHED again -/
+theorem c09_concrete_crossing_deletes (ca cb : Child) (a b : HSt)
+    (hsa : a.me.core.st = stESTABLISHED) (hsb : b.me.core.st = stESTABLISHED)
+    (hm : Mirror a.me.ext.kids b.me.ext.kids) (hnda : (a.me.ext.kids.map Child.inSpi).Nodup)
+    (hndb : (b.me.ext.kids.map Child.inSpi).Nodup) (ha : ca ∈ a.me.ext.kids) (hb : cb ∈ b.me.ext.kids) (hv : ca.view = cb.peerView)
+    (hproto : ca.proposal.proto = 2 ∨ ca.proposal.proto = 3) :
+    ∃ a3 b3, crossingDeleteExchange ca cb a b = some (a3, b3) ∧
+      a3.me.ext.kids = removeKid a.me.ext.kids ca ∧ b3.me.ext.kids = removeKid b.me.ext.kids cb ∧
+      a3.me.core.st = stESTABLISHED ∧ b3.me.core.st = stESTABLISHED ∧
+      a3.nl = a.nl ++ delPair a.me ca ∧ b3.nl = b.nl ++ delPair b.me cb :=
+  crossingDeleteExchange_eq ca cb a b hsa hsb hm hnda hndb ha hb hv hproto
+
+/-- any number of delete exchanges — started by `a`, by `b`, or by both at once, for any of the CHILD_SAs — runs to the end
+    without a handler raising and leaves the two ends agreed -/
+theorem c09_concrete_any_run_of_delete_exchanges_keeps_the_ends_agreed (a b : HSt) (h : Agree a b) (ops : List DelOp) :
+    ∃ a' b', delRun (a, b) ops = some (a', b') ∧ Agree a' b' := h.delRun ops
+
+/-- non-vacuity: two ends with two CHILD_SAs, where `a`'s inbound SPI of the first is also `a`'s outbound SPI of the second (D17's
+    setting): they agree, and three exchanges (`b` deletes its second, both delete the remaining one, one more with nothing left)
+    leave both ends without CHILD_SAs -/
+def exP : Proposal := ⟨1, 3, [], [⟨1, 12, some 256⟩, ⟨3, 12, none⟩]⟩
+def exKa1 : Child := ⟨[1, 2, 3, 4], [9, 9, 9, 9], exP, exP, [], [], 1, 300⟩
+def exKa2 : Child := ⟨[5, 6, 7, 8], [1, 2, 3, 4], exP, exP, [], [], 1, 300⟩
+def exKb1 : Child := ⟨[9, 9, 9, 9], [1, 2, 3, 4], exP, exP, [], [], 1, 300⟩
+def exKb2 : Child := ⟨[1, 2, 3, 4], [5, 6, 7, 8], exP, exP, [], [], 1, 300⟩
+def exConf : Conf :=
+  { proposal := { exP with proto := 1 }, protect := [], myIdType := 2, myIdData := [97], peerIdType := 2, peerIdData := [98],
+    dpd := 61440, lifetime := 921600 }
+def exCoreA : SaCore :=
+  { st := stESTABLISHED, isInit := true, mySpi := [1,1,1,1,1,1,1,1], peerSpi := [2,2,2,2,2,2,2,2], myId := 2, peerId := 0, keyed := true,
+    lastResp := none, request := none, rtxAt := 0, rtx := 0, dpdAt := 100000, rekeyAt := 900000, deleteAt := 930000, dpd := 61440,
+    children := [exKa1.ref, exKa2.ref], pending := [], indices := [], myAddr := [192,168,0,1], peerAddr := [192,168,0,2], cookie := false }
+def exA : HSt := { me := { core := exCoreA, ext := { conf := exConf, kids := [exKa1, exKa2] } }, succ := none, tape := { vals := [] } }
+def exB : HSt :=
+  { me := { core := { exCoreA with isInit := false, mySpi := [2,2,2,2,2,2,2,2], peerSpi := [1,1,1,1,1,1,1,1], myId := 0, peerId := 2,
+                                    children := [exKb1.ref, exKb2.ref], myAddr := [192,168,0,2], peerAddr := [192,168,0,1] },
+            ext := { conf := exConf, kids := [exKb1, exKb2] } }, succ := none, tape := { vals := [] } }
+
+example : Agree exA exB := by
+  refine ⟨rfl, rfl, ?_, by decide, by decide, by decide, by decide⟩
+  show List.Perm _ _
+  decide
+
+example : (delRun (exA, exB) [.byB 1, .both 0, .byA 0]).map (fun x => (x.1.me.ext.kids, x.2.me.ext.kids, x.1.nl.length, x.2.nl.length)) =
+    some ([], [], 4, 4) := by decide +kernel
+
+/-! ### two ends: agreement through CHILD_SA creations and rekeys
+
+`converse`: the responder's request handler on the request in flight, the initiator's response handler on the reply, and again
+for every request the latter returns (the retry after INVALID_KE_PAYLOAD, the delete of the replaced CHILD_SA after a rekey, the
+delete of a CHILD_SA the initiator cannot accept), until the initiator has nothing more to send. -/
+
+/-- what the responder's CHILD_SA request handler can come to: it raises and nothing changed; or it replies — built on the object
+    as it is afterwards — and either tracked exactly one more CHILD_SA (outbound SPI and protocol from a proposal of the request,
+    inbound SPI and protocol in the only SA payload of the reply, nothing in the reply that reads as a refusal) or tracked nothing
+    and the reply is a single notification -/
+theorem c09_concrete_responder_grants_or_refuses (now : Nat) (request : Msg) (x : XSa) (p0 : Proposal) (rest : List Proposal)
+    (hsa : paySA request true = .ok (p0 :: rest)) (hp0 : p0.proto ≠ 1) :
+    Tri (MeIs x) (processCreateChildSaRequest now request)
+      (fun res s => ∃ payloads, res = .reply (mkResponse s.me.core 36 payloads) ∧
+        (Granted request x payloads s ∨ (s.me = x ∧ ErrReply payloads)))
+      (fun _ s => s.me = x) :=
+  processCreateChildSaRequest_tri now request x p0 rest hsa hp0
+
+/-- everything the initiator's CHILD_SA response handler can come to when it returns (`AOut`): refused — back to ESTABLISHED, nothing
+    tracked; created — exactly one more CHILD_SA, inbound SPI ours, outbound SPI and suite the reply's first proposal; created and the
+    replaced CHILD_SA's deletion requested; not acceptable — nothing tracked, deletion of what the responder created requested;
+    INVALID_KE_PAYLOAD — the stored request with another KE payload sent again, nothing else changed -/
+theorem c09_concrete_initiator_outcomes (now : Nat) (response : Msg) (y0 : XSa) (c0 : Child) (hc : y0.ext.creating = some c0)
+    (hst : y0.core.st ≠ stREK_IKE_SA_REQ_SENT) :
+    Tri (MeIs y0) (processCreateChildSaResponse now response) (AOut y0 c0 response) (fun _ _ => True) :=
+  processCreateChildSaResponse_tri now response y0 c0 hc hst
+
+/-- a creation (`rekeyed = none`) or rekey conversation between two ends that agree: if no handler raises and the conversation ends
+    within `fuel` requests, both ends are ESTABLISHED and mirror images of each other.  `c0`: the record the initiator starts from;
+    its SPI must be one the initiator does not use yet. -/
+theorem c09_concrete_child_exchange_keeps_the_ends_agreed (now fuel : Nat) (c0 : Child) (rekeyed : Option Child) (a b a' b' : HSt)
+    (h : Agree a b) (hfresh : c0.inSpi ∉ a.me.ext.kids.map Child.inSpi) (hproto : c0.proposal.proto = 2 ∨ c0.proposal.proto = 3)
+    (hold : ∀ old, rekeyed = some old → old ∈ a.me.ext.kids)
+    (hx : childExchange now fuel c0 rekeyed a b = some (a', b')) : Done a' b' :=
+  childExchange_done now fuel c0 rekeyed a b a' b' h.done hfresh hproto hold hx
+
+/-- **any sequence of CHILD_SA exchanges** — ACQUIREs, soft and hard expiries at either end, one exchange at a time: if it runs to
+    the end (no handler raises, no end draws an SPI it already uses), the ends agree after it as they did before -/
+theorem c09_concrete_any_run_of_child_exchanges_keeps_the_ends_agreed (now fuel : Nat) (ops : List ChildOp) (a b a' b' : HSt)
+    (h : Agree a b) (hx : opRun now fuel (a, b) ops = some (a', b')) : Agree a' b' :=
+  Agree.opRun now fuel ops a b a' b' h hx
+
+/-- non-vacuity: two ends without CHILD_SAs; `a` acquires one, `b` rekeys it, `a` deletes the replacement: every step runs (the
+    tapes supply nonces, SPIs and kernel verdicts and are consumed as the model asks), the ends are mirrored after each -/
+def exCP : Proposal := ⟨1, 3, [], [⟨1, 12, some 256⟩, ⟨3, 12, none⟩]⟩
+def exTs (a : Bytes) : TS := { tsType := 7, ipProto := 0, startPort := 0, endPort := 65535, startAddr := a, endAddr := a }
+def exConfA : Conf :=
+  { proposal := { exCP with proto := 1 },
+    protect := [{ myTs := exTs [10,0,0,1], peerTs := exTs [10,0,0,2], index := 5, mode := 1, lifetime := 300, proposal := exCP }],
+    myIdType := 2, myIdData := [97], peerIdType := 2, peerIdData := [98], dpd := 61440, lifetime := 921600 }
+def exConfB : Conf :=
+  { exConfA with protect := [{ myTs := exTs [10,0,0,2], peerTs := exTs [10,0,0,1], index := 5, mode := 1, lifetime := 300, proposal := exCP }] }
+def exA0 : HSt :=
+  { me := { core := { exCoreA with children := [] }, ext := { conf := exConfA, kids := [] } }, succ := none,
+    tape := { vals := [.bytes [1], .num 0, .bytes [3], .bytes [9,9,9,9], .num 0] } }
+def exB0 : HSt :=
+  { me := { core := { exCoreA with isInit := false, mySpi := [2,2,2,2,2,2,2,2], peerSpi := [1,1,1,1,1,1,1,1], myId := 0, peerId := 2,
+                                    children := [], myAddr := [192,168,0,2], peerAddr := [192,168,0,1] },
+            ext := { conf := exConfB, kids := [] } }, succ := none,
+    tape := { vals := [.bytes [2], .bytes [8,8,8,8], .num 0, .bytes [4], .num 0] } }
+def exC0 : Child :=
+  { inSpi := [7,7,7,7], outSpi := [0,0,0,0], orig := exCP, proposal := exCP, tsi := [exTs [10,0,0,1]], tsr := [exTs [10,0,0,2]], mode := 1, lifetime := 300 }
+def exC1 : Child :=
+  { inSpi := [6,6,6,6], outSpi := [0,0,0,0], orig := exCP, proposal := exCP, tsi := [exTs [10,0,0,2]], tsr := [exTs [10,0,0,1]], mode := 1, lifetime := 300 }
+def exKids (x : Option (HSt × HSt)) : Option (List (Bytes × Bytes × Nat) × List (Bytes × Bytes × Nat)) :=
+  x.map fun x => (x.1.me.ext.kids.map Child.view, x.2.me.ext.kids.map Child.view)
+def exStates (x : Option (HSt × HSt)) : Option (List Nat × List Bool) :=
+  x.map fun x => ([x.1.me.core.st, x.2.me.core.st], [x.1.tape.bad, x.2.tape.bad])
+
+example : Agree exA0 exB0 := ⟨rfl, rfl, List.Perm.nil, List.nodup_nil, List.nodup_nil, by decide, by decide⟩
+example : exKids (opRun 0 4 (exA0, exB0) [.create true exC0]) =
+    some ([([7,7,7,7], [8,8,8,8], 3)], [([8,8,8,8], [7,7,7,7], 3)]) := by decide +kernel
+example : exKids (opRun 0 4 (exA0, exB0) [.create true exC0, .rekey false 0 exC1]) =
+    some ([([9,9,9,9], [6,6,6,6], 3)], [([6,6,6,6], [9,9,9,9], 3)]) := by decide +kernel
+example : exKids (opRun 0 4 (exA0, exB0) [.create true exC0, .rekey false 0 exC1, .delete true 0]) = some ([], []) := by
+  decide +kernel
+example : exStates (opRun 0 4 (exA0, exB0) [.create true exC0, .rekey false 0 exC1, .delete true 0]) =
+    some ([10, 10], [false, false]) := by decide +kernel
 
 end PyIkev2.Props.C09
